@@ -151,20 +151,25 @@ func (mbs *metadataPartStorage) HeadObject(ctx context.Context, bucketName stora
 }
 
 // normalizeAndValidateRanges converts suffix ranges to absolute ranges and validates all ranges.
-// Returns an error if any range is invalid.
+// Ranges that select no byte of the object (first byte at or beyond the end, zero-length suffix) are
+// skipped: per RFC 7233 a range set is satisfiable if at least one of its ranges is.
+// Returns an error if any range is malformed or if no satisfiable range remains.
 func normalizeAndValidateRanges(ranges []storage.ByteRange, objectSize int64) ([]storage.ByteRange, error) {
-	normalized := make([]storage.ByteRange, len(ranges))
+	normalized := make([]storage.ByteRange, 0, len(ranges))
 
-	for i, byteRange := range ranges {
+	for _, byteRange := range ranges {
 		// Handle suffix range (e.g., bytes=-500 means last 500 bytes)
 		if byteRange.Start == nil && byteRange.End != nil {
-			if *byteRange.End <= 0 {
+			if *byteRange.End < 0 {
 				return nil, storage.ErrInvalidRange
+			}
+			if !byteRange.IsSatisfiable(objectSize) {
+				continue
 			}
 			suffixLength := min(*byteRange.End, objectSize)
 			start := objectSize - suffixLength
 			end := objectSize
-			normalized[i] = storage.ByteRange{Start: &start, End: &end}
+			normalized = append(normalized, storage.ByteRange{Start: &start, End: &end})
 			continue
 		}
 
@@ -172,18 +177,24 @@ func normalizeAndValidateRanges(ranges []storage.ByteRange, objectSize int64) ([
 		if byteRange.Start != nil && *byteRange.Start < 0 {
 			return nil, storage.ErrInvalidRange
 		}
+		if byteRange.Start != nil && byteRange.End != nil && *byteRange.Start >= *byteRange.End {
+			return nil, storage.ErrInvalidRange
+		}
+		if !byteRange.IsSatisfiable(objectSize) {
+			continue
+		}
 		// Per RFC 7233: if the range end exceeds the object size, clamp it to the object size.
 		if byteRange.End != nil && *byteRange.End > objectSize {
 			clamped := objectSize
 			byteRange.End = &clamped
 		}
-		if byteRange.Start != nil && byteRange.End != nil && *byteRange.Start >= *byteRange.End {
-			return nil, storage.ErrInvalidRange
-		}
 
-		normalized[i] = byteRange
+		normalized = append(normalized, byteRange)
 	}
 
+	if len(normalized) == 0 {
+		return nil, storage.ErrInvalidRange
+	}
 	return normalized, nil
 }
 
